@@ -505,32 +505,49 @@ class FixedWidthBinning(BinningBase):
     def is_regular(self, **kwargs) -> bool:
         return True
 
+    def _grid_edge(self, index: int) -> float:
+        """Position of an edge of the (infinite) grid - same arithmetic as in numpy_bins."""
+        return index * self._bin_width + self._shift
+
+    def _grid_index(self, value) -> int:
+        """Index of the grid bin containing the value (left edge <= value < right edge).
+
+        The quotient is only a first guess, it may be off by one for inexact widths.
+        """
+        index = int(np.floor((value - self._shift) / self._bin_width))
+        while self._grid_edge(index) > value:
+            index -= 1
+        while self._grid_edge(index + 1) <= value:
+            index += 1
+        return index
+
     def _force_bin_existence_single(self, value, includes_right_edge=None):
         if includes_right_edge is None:
             includes_right_edge = self.includes_right_edge
 
         if self._bin_count == 0:
-            self._times_min = int(np.floor((value - self._shift) / self.bin_width))
             if not self._align:
-                self._shift = value - self._times_min * self.bin_width
+                times_min = int(np.floor((value - self._shift) / self.bin_width))
+                self._shift = value - times_min * self.bin_width
+            self._times_min = self._grid_index(value)
             self._bin_count = 1
             self._bins = None
             self._numpy_bins = None
             return ()
         else:
-            add_left = add_right = 0
-            if value < self.numpy_bins[0]:
-                add_left = int(np.ceil((self.numpy_bins[0] - value) / self.bin_width))
-                self._times_min -= add_left
-                self._bin_count += add_left
-            elif value >= self.numpy_bins[-1]:
-                add_right = (value - self.numpy_bins[-1]) / self.bin_width
-                add_right = int(np.ceil(add_right))
-                self._bin_count += add_right
-                if self.last_edge == value and not includes_right_edge:
-                    add_right += 1
-                    self._bin_count += 1
+            index = self._grid_index(value)
+            if (
+                includes_right_edge
+                and index > self._times_min
+                and value == self._grid_edge(index)
+            ):
+                # The value belongs to the (closed) right edge of the previous bin
+                index -= 1
+            add_left = max(0, self._times_min - index)
+            add_right = max(0, index - (self._times_min + self._bin_count - 1))
             if add_left or add_right:
+                self._times_min -= add_left
+                self._bin_count += add_left + add_right
                 self._bins = None
                 self._numpy_bins = None
                 return add_left
@@ -543,6 +560,8 @@ class FixedWidthBinning(BinningBase):
                 values, includes_right_edge=includes_right_edge
             )
         else:
+            if np.size(values) == 0:
+                return None
             min_, max_ = np.min(values), np.max(values)
             result = self._force_bin_existence_single(min_)
             result2 = self._force_bin_existence_single(
